@@ -80,25 +80,34 @@ EmitBigOK(r) ==
 
 \* ---- reads of arbitrary bytes (C05 / C06 / C07) ---------------------------
 \* outcome: "clean" (io.EOF from Read / nil from WriteTo), "error", "panic", "hang"
+\* Byte level (r.small): TLC parses r.bytes itself.  Field level: r.ref is the reference parser's
+\* lenient summary of the same bytes (re-validated against LZ4Frame!Parse on the small records).
+RefStatus(r) == IF r.small THEN ParseLenient(r.bytes).status ELSE r.ref.status
+
 \* C05: a clean end implies the independent parser accepts the consumed bytes and yields the same output
 SoundOK(r) ==
     r.outcome = "clean" =>
-        LET p == ParseLenient(r.bytes)
-        IN  p.status = "ok" /\ p.content = r.delivered
+        IF r.small
+        THEN LET p == ParseLenient(r.bytes) IN p.status \in {"ok", "empty"} /\ p.content = r.delivered
+        ELSE r.ref.status \in {"ok", "empty"} /\ r.ref.sameContent
 
-\* C06: bytes is a proper prefix (cut >= 1) of a valid frame whose content is r.content
+\* C06: the source is a proper prefix (cut >= 1) of a valid frame; delivered bytes are a prefix of
+\* its content, and the end is clean only for a legacy frame cut exactly at a block boundary
 TruncOK(r) ==
     /\ r.outcome \in {"error", "clean"}
-    /\ IsPrefixOf(r.delivered, r.content)
+    /\ r.prefixOfContent
+    /\ (r.small => IsPrefixOf(r.delivered, r.content))
     /\ (r.outcome = "clean" => r.legacyboundary)
+    /\ (r.small /\ ~r.legacyboundary => ParseLenient(r.bytes).status = "truncated")   \* the case really is a truncation
 
-\* C07: termination and dispatch on the first word
+\* C07: termination, dispatch on the first word, bounded allocation, no goroutine left behind
 SafeOK(r) ==
-    LET p == ParseLenient(r.bytes)
-    IN  /\ r.outcome \in {"error", "clean"}
-        /\ (p.status = "bad_magic" /\ p.consumed = 4 => r.err = "magic")
-        /\ (r.err = "magic" => p.status = "bad_magic")
-        /\ r.leaked = 0
+    /\ r.outcome \in {"error", "clean"}
+    /\ (RefStatus(r) = "bad_magic" => r.err = "magic")
+    /\ (r.err = "magic" => RefStatus(r) = "bad_magic")
+    /\ r.leaked = 0
+    /\ r.mem.allocMiB <= 64 + 2 * (r.conc + 3) * r.maxblockMiB + 3 * r.deliveredMiB
+    /\ (r.small /\ r.outcome = "clean" => ParseLenient(r.bytes).status \in {"ok", "empty"})
 
 RefOK(r) ==
     LET p == Parse(r.bytes, r.strict)
